@@ -2,6 +2,7 @@
 //! prints one canonical result line per case.  No oracle logic lives here.
 mod l_clock;
 mod l_codec;
+mod l_history;
 mod l_prog;
 mod l_sched;
 
@@ -12,6 +13,11 @@ fn main() {
     // panics inside cases are caught and classified; keep stderr quiet
     if std::env::var("VH_HOOK").is_err() {
         std::panic::set_hook(Box::new(|_| {}));
+    }
+    if layer == "history" {
+        let dir = std::env::args().nth(2).unwrap_or_else(|| ".".to_string());
+        l_history::main_history(&dir);
+        return;
     }
     let stdin = std::io::stdin();
     let stdout = std::io::stdout();
